@@ -427,6 +427,12 @@ def fam_models(v):
     def exponential_model(x, A_0=1.0, x_0=1.0):
         return A_0 * np.exp(x / x_0)
 
+    def cubic_model(x, a=1.0, b=1.0, c=1.0, d=1.0):
+        return a * x**3 + b * x**2 + c * x + d
+
+    def normal_distribution(x, mu=1.0, sigma=1.0):  # the normal density depends on sigma**2 only
+        return np.exp(-0.5 * (x - mu) ** 2 / sigma**2) / np.sqrt(2.0 * np.pi * sigma**2)
+
     def sym(x, a=1.5, b=0.3):
         return a * x + b * x**2
 
@@ -438,6 +444,10 @@ def fam_models(v):
         ("library:line", "line", linear_model, [[1.0, 1.0], [1.3, 0.4], [0.8, 1.2]]),
         ("library:quadratic", "quadratic", quadratic_model, [[1.0, 1.0, 1.0], [0.05, 0.7, 1.2], [0.1, 0.5, 0.9]]),
         ("library:exponential_model", "exponential_model", exponential_model, [[1.0, 1.0], [1.4, 4.0], [1.7, 5.0]]),
+        ("library:cubic", "cubic", cubic_model, [[1.0, 1.0, 1.0, 1.0], [0.02, -0.05, 0.7, 1.2], [-0.01, 0.1, 0.5, 0.9]]),
+        ("library:exp", "exp", exponential_model, [[1.0, 1.0], [1.4, -4.0], [-1.7, 5.0]]),
+        ("library:normal_distribution", "normal_distribution", normal_distribution, [[1.0, 1.0], [2.5, 1.8], [3.0, -2.2]]),
+        ("library:normal", "normal", normal_distribution, [[1.0, 1.0], [2.0, -1.5], [3.5, 0.9]]),
         ("sympy:defaults", "f: x a=1.5 b=0.3 -> a*x + b*x**2", sym, [[1.5, 0.3], [1.1, 0.1], [0.9, 0.05]]),
         ("sympy:exp", "g: x a b -> a*exp(-b*x)", symexp, [[1.0, 1.0], [2.0, 0.1], [3.0, -0.2]]),
     ]
@@ -569,6 +579,59 @@ def fam_yaml(v):
     cases = [("yaml/explicit-yaml<->api", loader(EXPLICIT_YAML), explicit_api)]
     for name, text in SHORT_YAML.items():
         cases.append(("yaml/%s<->explicit-yaml" % name, loader(text), loader(EXPLICIT_YAML)))
+
+    # a list of uncertainties mixing plain numbers (absolute) and percent strings (relative to the data), for data with and without axes
+    short = ["0.4", "5%", "8%", "0.3", "12%", "0.25"]
+    rel = np.array([0.0, 0.05, 0.08, 0.0, 0.12, 0.0])
+    ab = np.array([0.4, 0.0, 0.0, 0.3, 0.0, 0.25])
+    ylist = [round(float(t), 6) for t in y]
+    xlist = [round(float(t), 6) for t in x]
+
+    def file_fit(cls, text):
+        def build():
+            d = tempfile.mkdtemp(prefix="kmc_c14_")
+            try:
+                path = os.path.join(d, "fit.yml")
+                with open(path, "w") as fh:
+                    fh.write(text)
+                with warnings.catch_warnings():
+                    warnings.simplefilter("ignore")
+                    return fit_signature(cls.from_file(path))
+            finally:
+                shutil.rmtree(d, ignore_errors=True)
+
+        return build
+
+    idx_code = "def im(a=1.2, b=0.7):\n    return a * np.arange(%d) * 0.5 + b + a * 0.2\n" % N
+    idx_text = "type: indexed\ndata: %s\nerrors: [%s]\nmodel_function: |\n  %s" % (ylist, ", ".join(short), idx_code.replace("\n", "\n  "))
+
+    def idx_api():
+        with warnings.catch_warnings():
+            warnings.simplefilter("ignore")
+            f = kafe2.IndexedFit(np.array(ylist), im)
+            f.add_error(rel, relative=True)
+            f.add_error(ab)
+            return fit_signature(f)
+
+    cases.append(("yaml/indexed-mixed-percent-list<->api", file_fit(kafe2.IndexedFit, idx_text), idx_api))
+    for first in ("number", "percent"):
+        sh = short if first == "number" else short[1:] + short[:1]
+        r_ = rel if first == "number" else np.roll(rel, -1)
+        a_ = ab if first == "number" else np.roll(ab, -1)
+        xy_text = "x_data: %s\ny_data: %s\ny_errors: [%s]\nx_errors: [%s]\nmodel_function: |\n  def lm(x, a=1.1, b=0.4):\n      return a * x + b\n" % (
+            xlist, ylist, ", ".join(sh), ", ".join(["2%", "0.05"] * (N // 2)))
+
+        def xy_api(r_=r_, a_=a_):
+            with warnings.catch_warnings():
+                warnings.simplefilter("ignore")
+                f = kafe2.XYFit([np.array(xlist), np.array(ylist)], lm)
+                f.add_error("y", r_, relative=True)
+                f.add_error("y", a_)
+                f.add_error("x", np.array([0.02, 0.0] * (N // 2)), relative=True)
+                f.add_error("x", np.array([0.0, 0.05] * (N // 2)))
+                return fit_signature(f)
+
+        cases.append(("yaml/xy-mixed-percent-list-%s-first<->api" % first, file_fit(kafe2.XYFit, xy_text), xy_api))
     return cases
 
 
